@@ -63,6 +63,9 @@ func genUtil(t *rapid.T) UtilCase {
 	if x := pick(t, "shape", 24); x < 3 {
 		c.Shape = []string{"leaf-only", "empty-chain", "nil-sct"}[x]
 	}
+	if pick(t, "bulk", 15) == 0 { // entries beyond the 16-bit length boundary
+		c.Spec.Bulk = []int{65000, 65535, 65536, 70000, 200000}[pick(t, "bulksize", 5)]
+	}
 	c.Timestamp = genU64(t, "ts")
 	if rapid.Bool().Draw(t, "hasext") {
 		c.Ext = rapid.SliceOfN(rapid.Byte(), 1, 8).Draw(t, "ext")
